@@ -72,9 +72,10 @@ def main():
             elif line.startswith("SEND_SYNC_ASSERTIONS "): assertions = int(line.split()[1])
             elif line.startswith("MISMATCH "): mismatches.append(line[9:])
         if not runner_ran:
-            path = os.path.join(VERIF, "replays", "C20-runner-crash.txt")
-            open(path, "w").write(p.stdout + p.stderr)
-            violations.append(("runner-crash", "the runner comparing const-built and runtime-built objects terminated abnormally (exit %s)" % p.returncode, path))
+            # every comparison runs under catch_unwind, so this is an abort of the process: not something C20 can judge
+            print(p.stdout[-2000:] + p.stderr[-2000:])
+            print("MACHINERY-ERROR: the C20 runner terminated abnormally (exit %s); not a C20 verdict" % p.returncode)
+            return 2
         for i, mm in enumerate(mismatches):
             key = "runtime-mismatch/" + re.sub(r"[^A-Za-z0-9_.-]+", "_", mm)[:80]
             path = os.path.join(VERIF, "replays", "C20-mismatch-%d.json" % i)
